@@ -5,6 +5,12 @@ HERE = os.path.dirname(os.path.dirname(os.path.abspath(__file__)))
 PROPS = [json.loads(l) for l in open(os.path.join(HERE, 'properties.jsonl'))]
 
 CLAIMED = {
+ 'C16': dict(
+   category='proof',
+   text='(a) Renumbering: for every line of every form that reads copies of a numbered form, symbolic execution shows the copies are read only inside canonical sums over all copies or exists-tests whose outcome does not depend on the copy number (a loop that stops at a particular copy, or a read of a fixed copy, is a refuted obligation) - except the 168 frozen Schedule B listing rows; with the Sigma-permutation lemma a renumbering changes nothing else. (c) Withholding: no line in the static read cone of total tax reads a withholding or payment input; two-copy VCs over the composed definitions of lines 25a..37 prove that one more cent of W-2 withholding, 1099 withholding, other federal withholding or estimated payments moves (34 - 37) by exactly that amount, for all solved pairs. (b) Monotonicity: two-copy VCs over the cone of total tax for larger medical expenses and larger real-estate taxes (2022, 2023).',
+   design_ref='DESIGN 4 C16',
+   note='NOT covered (listed in evidence as not claimed): the wage monotonicity VCs (discharge in 13 s idle, time out under load - unstable, so excluded) and all 2021 monotonicity VCs (z3 returns a counter-model of the composed definitions that could not be replayed as a native pair of returns). A-IND for the Sigma lemmas; amounts are whole cents; pairs in which both returns solve.',
+   technique='per-line symmetry obligations by symbolic execution; two-copy (relational) VCs over composed line summaries, z3'),
  'C02': dict(
    category='proof',
    text='For every line mapped to a template box whose accessibility text carries a machine-readable instruction (add / add ... through / combine / subtract [floor at zero] / multiply by rate or amount / smaller or larger of / divide / amount from line / carried from Schedule or Form), and for the transcribed Qualified Dividends and Capital Gain Tax Worksheet, the instruction is parsed on every run from the bundled PDF into a term over the other lines of the solution, and z3 proves on every returning path of the real line function that the value equals that term for all inputs (289 lines over three years); callee lines contribute their contracts (exact decimals, non-negativity, and where needed their own definitions unfolded). Carry lines equal the named line of the other form or are blank when that form is not demanded.',
